@@ -7,6 +7,7 @@ Require Import Selen.Proofs.Props.BasicProofs Selen.Proofs.EngineProofs.
 
 Theorem minimize_optimal : forall pick obj ps s t,
   Forall good ps -> scoped ps (length s) -> wf_store s -> view_ok obj ->
+  (forall x, uvar obj = Some x -> (x < length s)%nat) ->
   minimize pick obj ps s = Some (Some t) ->
   sol ps s (asg_of t) /\ forall a, sol ps s a -> vsem obj (asg_of t) <= vsem obj a.
 Proof. exact (EngineProofs.minimize_optimal BasicProofs.mk_leq_good BasicProofs.mk_gt_good BasicProofs.mk_lt_good). Qed.
@@ -14,6 +15,7 @@ Print Assumptions minimize_optimal.
 
 Theorem maximize_optimal : forall pick obj ps s t,
   Forall good ps -> scoped ps (length s) -> wf_store s -> view_ok obj ->
+  (forall x, uvar obj = Some x -> (x < length s)%nat) ->
   maximize pick obj ps s = Some (Some t) ->
   sol ps s (asg_of t) /\ forall a, sol ps s a -> vsem obj a <= vsem obj (asg_of t).
 Proof. exact (EngineProofs.maximize_optimal BasicProofs.mk_leq_good BasicProofs.mk_gt_good BasicProofs.mk_lt_good). Qed.
@@ -29,6 +31,7 @@ Print Assumptions minimize_ok_iff_sat.
 (* iterating variants: only solutions, strictly improving, the last one optimal *)
 Theorem iterate_strictly_improves : forall pick obj ps s sols best,
   Forall good ps -> scoped ps (length s) -> wf_store s -> view_ok obj ->
+  (forall x, uvar obj = Some x -> (x < length s)%nat) ->
   search pick (Some obj) ps s = SOk sols best ->
   strictly_decreasing (objs obj sols) /\
   (forall t, In t sols -> sol ps s (asg_of t)) /\
